@@ -12,7 +12,7 @@ mod chainrep;
 use chainrep::*;
 
 const MATURITY: u64 = 3;
-const N_INVALID_KINDS: u64 = 26;
+const N_INVALID_KINDS: u64 = 30;
 
 #[derive(Clone, Default)]
 struct AState {
@@ -496,6 +496,9 @@ impl Gen {
 			}
 			label = "reward-claimed-without-coinbase";
 		}
+		if kind == 29 {
+			txs.clear();
+		}
 		let mut b = self.kit.assemble_full(parent, diff, &txs, delta, cb_key, kind == 22).ok()?;
 		let prev = self.kit.blks[parent].block.header.clone();
 		match kind {
@@ -565,6 +568,59 @@ impl Gen {
 				b.header.prev_root = Hash::from_vec(&v);
 				tags.push("hdr:InvalidRoot".into());
 				label = "prev-root-wrong";
+			}
+			26 | 27 | 28 | 29 => {
+				// header size fields off by ONE LEAF, everything else honest (roots computed for the
+				// real body): no tag - the model compares the claimed leaf counts (`osz=` / `ksz=` of
+				// the block line) with the block's own path (Model/ChainSizes.lean)
+				use grin_core::core::pmmr::{insertion_to_pmmr_index, n_leaves};
+				let ol = n_leaves(b.header.output_mmr_size);
+				let kl = n_leaves(b.header.kernel_mmr_size);
+				match kind {
+					26 => {
+						// understated output size on a block creating >= 2 outputs (passes the header stage)
+						if b.body.outputs.len() < 2 {
+							return None;
+						}
+						b.header.output_mmr_size = insertion_to_pmmr_index(ol - 1);
+						label = "output-mmr-size-minus-one-leaf(>=2-outputs)";
+					}
+					27 => {
+						b.header.output_mmr_size = insertion_to_pmmr_index(ol + 1);
+						label = "output-mmr-size-plus-one-leaf";
+					}
+					28 => {
+						if b.body.kernels.len() < 2 {
+							return None;
+						}
+						b.header.kernel_mmr_size = insertion_to_pmmr_index(kl - 1);
+						label = "kernel-mmr-size-minus-one-leaf(>=2-kernels)";
+					}
+					_ => {
+						// a coinbase-only block claiming NO new output: refused at the header stage
+						if b.body.outputs.len() != 1 {
+							return None;
+						}
+						b.header.output_mmr_size = insertion_to_pmmr_index(ol - 1);
+						label = "output-mmr-size-claims-no-new-output";
+					}
+				}
+				if kind != 28 {
+					// from header version 3 on the output root commits to the CLAIMED size: a producer of
+					// such a header writes the root for its own claim (then only `validate_sizes` stands in
+					// the way); half of the cases keep the honest header's root, which `validate_roots`
+					// then refuses first
+					if b.header.version >= grin_core::core::HeaderVersion(3) {
+						if rng.chance(1, 2) && self.kit.set_output_root_for_claimed_size(&mut b) {
+							self.stat("invalid:size-field:output-root-written-for-the-claimed-size");
+						} else if kind != 29 {
+							tags.push("late:InvalidRoot".into());
+							self.stat("invalid:size-field:output-root-of-the-honest-header");
+						}
+					} else {
+						self.stat("invalid:size-field:header-version<3");
+					}
+				}
 			}
 			13 => {
 				b.header.timestamp = prev.timestamp;
@@ -4344,20 +4400,36 @@ fn run_known(out: &mut Out, rng: &mut Rng, work: &str, thorough: bool) -> BTreeM
 		probe_known(out, rng, &sk, &delivered, &mut stats, "no-reset");
 
 		// --- phase B: reset below the head, then everything above it is offered again ---
-		let rounds = if thorough { 3 } else { 2 };
+		let rounds = if thorough { 4 } else { 3 };
 		for round in 0..rounds {
 			let head = *kit.by_hash.get(&sk.c().head().unwrap().last_block_h).unwrap_or(&0);
 			let hh = kit.blks[head].height as usize;
 			if hh < 3 {
 				break;
 			}
-			let depth = 1 + rng.below(std::cmp::min(6, hh - 1) as u64) as usize;
+			let mut depth = 1 + rng.below(std::cmp::min(6, hh - 1) as u64) as usize;
 			let mut target = head;
 			for _ in 0..depth {
 				target = kit.blks[target].parent.unwrap();
 			}
+			// the last round resets onto a block of a LOSING fork (stored, not on the head's path)
+			let mut onto_fork = false;
+			if round == rounds - 1 {
+				let mut head_path = BTreeSet::new();
+				let mut x = Some(head);
+				while let Some(i) = x {
+					head_path.insert(i);
+					x = kit.blks[i].parent;
+				}
+				let cands: Vec<usize> = delivered.iter().cloned().filter(|i| !head_path.contains(i)).collect();
+				if !cands.is_empty() {
+					target = *rng.pick(&cands);
+					depth = 0;
+					onto_fork = true;
+				}
+			}
 			// the first round keeps the header chain (PIBD restart), the second rewinds it (owner API)
-			let rewind_headers = round % 2 == 1;
+			let rewind_headers = if onto_fork { rng.chance(1, 2) } else { round % 2 == 1 };
 			let before_reset = (sk.obs(kit), sk.roots());
 			let th = kit.blks[target].block.header.clone();
 			let r = match sk.c().reset_chain_head(grin_chain::Tip::from_header(&th), rewind_headers) {
@@ -4366,7 +4438,76 @@ fn run_known(out: &mut Out, rng: &mut Rng, work: &str, thorough: bool) -> BTreeM
 			};
 			out.line(&format!("chain resethead sk b{} hdrs={}", target, if rewind_headers { 1 } else { 0 }), &r);
 			out.line("chain obs sk", &sk.obs(kit));
-			*stats.entry(format!("known:reset:depth={}:rewind_headers={}:{}", depth, rewind_headers, r)).or_insert(0) += 1;
+			*stats.entry(format!("known:reset:{}:rewind_headers={}:{}", if onto_fork { "onto-losing-fork-block".to_string() } else { format!("depth={}", depth) }, rewind_headers, r)).or_insert(0) += 1;
+			// BEFORE anything is offered again: the node must be in the replayed state of the target.
+			// (the `obs` line above compares get_unspent of every output ever built with the model's
+			// replay of the target's own path.) Outputs spent only by DISCARDED blocks are unspent
+			// again and spendable, outputs created only by discarded blocks are gone; full state valid.
+			if r == "ok" {
+				let st_t = &g.states[&target];
+				let st_h = &g.states[&head];
+				let revived: Vec<usize> = st_t.utxo.keys().cloned().filter(|o| !st_h.utxo.contains_key(o)).collect();
+				let gone: Vec<usize> = st_h.utxo.keys().cloned().filter(|o| !st_t.utxo.contains_key(o)).collect();
+				*stats.entry(format!("known:reset:outputs-spent-only-by-discarded-blocks={}", std::cmp::min(revived.len(), 5))).or_insert(0) += 1;
+				let probe = |out: &mut Out, o: usize, want_ok: bool, stats: &mut BTreeMap<String, u64>| {
+					let rec = &kit.outs[o];
+					let unspent = matches!(sk.c().get_unspent(rec.commit), Ok(Some(_)));
+					let key = grin_keychain::ExtKeychainPath::new(3, 7, o as u32, round as u32, 0).to_identifier();
+					if rec.value < 5 {
+						return;
+					}
+					let tx = match make_tx(&kit.kc, &[(rec.value, rec.key_id.clone(), rec.coinbase)], &[(rec.value - 1, key)], grin_core::core::KernelFeatures::Plain { fee: 1u32.into() }) {
+						Ok(t) => t,
+						Err(_) => return,
+					};
+					let v = match sk.c().validate_tx(&tx) {
+						Ok(_) => "ok".to_string(),
+						Err(e) => format!("err:{}", error_class(&e)),
+					};
+					out.line(&format!("chain txval sk ins=[o{}] outs=[] kers=[p:1]", o), &v);
+					*stats.entry(format!("known:reset:probe:{}:unspent={}:validate_tx={}", if want_ok { "spent-only-by-discarded-blocks" } else { "created-only-by-discarded-blocks" }, unspent, v)).or_insert(0) += 1;
+					if unspent != want_ok || (v == "ok") != want_ok {
+						out.raw(&format!(
+							"#ORACLE-FAIL C02 after reset_chain_head(b{}, {}) from head b{}: output o{} ({}) get_unspent={} validate_tx of a spend={} - the replayed state of b{} says {}",
+							target, rewind_headers, head, o,
+							if want_ok { "spent only by discarded blocks" } else { "created only by discarded blocks" },
+							unspent, v, target, if want_ok { "unspent" } else { "not there" }
+						));
+					}
+				};
+				for o in revived.iter().take(3) {
+					probe(out, *o, true, &mut stats);
+				}
+				for o in gone.iter().take(2) {
+					probe(out, *o, false, &mut stats);
+				}
+				let v = match sk.c().validate(true) {
+					Ok(_) => "ok".to_string(),
+					Err(e) => format!("err:{}", error_class(&e)),
+				};
+				out.line("chain validate sk", &v);
+				if let Err(e) = sk.sums_check() {
+					out.raw(&format!("#ORACLE-FAIL C01 right after reset_chain_head(b{}, {}): {}", target, rewind_headers, e));
+				}
+				// against a node that only ever saw the target's own path
+				let tr = Subject::new(&format!("{}/ktr_{}_{}", work, hist, round), &kit.genesis);
+				let mut p = vec![];
+				let mut x = target;
+				while x != 0 {
+					p.push(x);
+					x = kit.blks[x].parent.unwrap();
+				}
+				p.reverse();
+				for i in &p {
+					let _ = tr.deliver_block(&kit.blks[*i].block);
+				}
+				if strip(&sk.obs(kit)) != strip(&tr.obs(kit)) || sk.roots() != tr.roots() {
+					out.raw(&format!(
+						"#ORACLE-FAIL C02 after reset_chain_head(b{}, {}) from head b{} the node reports [{} {}] but a node that only saw the path to b{} reports [{} {}]",
+						target, rewind_headers, head, sk.obs(kit), sk.roots(), target, tr.obs(kit), tr.roots()
+					));
+				}
+			}
 			// blocks on the target's own path are known and not above the head; the others are offered
 			// again in random order (children before parents included)
 			let mut on_path = BTreeSet::new();
